@@ -69,7 +69,7 @@ Example C05_nonvacuous :
   let po0 : parse_oracle := fun _ => Some [] in
   let lab0 : label_oracle := fun _ => [] in
   let ops := [UCreateCC (mkCCObj [99] (FOk (mkCidr V4 167772160 28)) FEmpty 4 (Some [107]) [] false 1 0 0);
-              Construct None None []; StartInformers; UCreateNode [110;49] [] []; DeliverNode; ProcNode [POk];
+              Construct None None [] []; StartInformers; UCreateNode [110;49] [] []; DeliverNode; ProcNode [POk];
               DeliverNode; ProcNode [POk]; UCreateNode [110;50] [] []; DeliverNode; ProcNode [POk]] in
   last (map (fun x => (ob_res (snd (fst x)), ob_fx (snd (fst x)), ob_requeued (snd (fst x)))) (trace po0 lab0 init_world ops)) (0, [], false)
   = (2, [FxEvent 1 [110; 50]], true).
